@@ -164,6 +164,7 @@ class Model:
         self.functions = {}
         self._load()
         if normalise:
+            self._relocate_class_constants()
             self._alpha_normalise()
         self._index()
         self._mro_cache = {}
@@ -204,6 +205,173 @@ class Model:
             seen.add(fi.qualname)
             fi = self.helper_owner[fi.qualname]
         return fi
+
+    # ------------------------------------------- relocated class constants
+    def _relocate_class_constants(self):
+        """A private class-level constant moved out of its class to module
+        level (`BaseParser._cdata_tags` -> `_CDATA_TAGS`) is moved back in the
+        syntax trees, when that is unambiguous: the class no longer defines a
+        private name the table lists, the module has exactly one new private
+        global of the same name up to case and underscores that neither the
+        table, the references nor the rules know, it is assigned once, and
+        every use of it is inside a method (with a receiver parameter) or the
+        body of that class or of a class of the same module derived from it.
+        Otherwise nothing is touched and the rules report a vanished anchor."""
+        import copy
+        import json
+        path = os.path.join(os.path.dirname(os.path.dirname(
+            os.path.abspath(__file__))), "spec", "names.json")
+        try:
+            with open(path) as f:
+                table = json.load(f)
+        except OSError:
+            return
+        from .absint import spec_vocabulary
+        vocab = spec_vocabulary()
+        known = set()
+        for d in table.values():
+            for k, v in d.items():
+                if k not in ("arity", "callers"):
+                    known.update(v)
+
+        def key(n):
+            return n.replace("_", "").lower()
+        for modname, mod in self.modules.items():
+            live = private_members(mod.tree)
+            want_globals = set(table.get(modname, {}).get("globals", []))
+            classes = {st.name: st for st in mod.tree.body
+                       if isinstance(st, ast.ClassDef)}
+            for cname, cnode in classes.items():
+                want = table.get(modname + "." + cname)
+                if want is None:
+                    continue
+                have = set(live.get(cname, {}).get("fields", []))
+                gone = [f for f in want.get("fields", []) if f not in have]
+                fresh = [g for g in live[""]["globals"]
+                         if g not in want_globals and g not in vocab
+                         and g not in known]
+                pairs = []
+                for fld in list(gone):
+                    cands = [g for g in fresh if key(g) == key(fld)]
+                    if len(cands) == 1:
+                        pairs.append((fld, cands[0]))
+                        gone.remove(fld)
+                        fresh.remove(cands[0])
+                if len(gone) == 1 and len(fresh) == 1:
+                    # one constant vanished, one unknown global appeared
+                    pairs.append((gone[0], fresh[0]))
+                for fld, g in pairs:
+                    # a constant some class still (re)defines, or instances
+                    # assign, is looked up dynamically: moving it to module
+                    # level changed what those see -- not undone here
+                    redefined = False
+                    for m2 in self.modules.values():
+                        for n in ast.walk(m2.tree):
+                            if isinstance(n, ast.Attribute) and n.attr == fld \
+                                    and isinstance(n.ctx, (ast.Store,
+                                                           ast.Del)):
+                                redefined = True
+                            elif isinstance(n, ast.ClassDef):
+                                for b in n.body:
+                                    if isinstance(b, ast.Assign) and any(
+                                            isinstance(t, ast.Name)
+                                            and t.id == fld
+                                            for t in b.targets):
+                                        redefined = True
+                    if redefined:
+                        continue
+                    assigns = [st for st in mod.tree.body
+                               if isinstance(st, ast.Assign) and any(
+                                   isinstance(t, ast.Name) and t.id == g
+                                   for t in st.targets)]
+                    if len(assigns) != 1 or len(assigns[0].targets) != 1:
+                        continue
+                    # classes of this module derived from cname
+                    family = {cname}
+                    grew = True
+                    while grew:
+                        grew = False
+                        for n2, c2 in classes.items():
+                            if n2 not in family and any(
+                                    isinstance(b, ast.Name) and b.id in family
+                                    for b in c2.bases):
+                                family.add(n2)
+                                grew = True
+                    uses, ok = [], True
+                    for n in ast.walk(mod.tree):
+                        if isinstance(n, ast.Name) and n.id == g \
+                                and n is not assigns[0].targets[0]:
+                            uses.append(n)
+                    plan = []
+                    for n in uses:
+                        p = getattr(n, "_parent", None)
+                        fn = cls = None
+                        while p is not None:
+                            if fn is None and cls is None and isinstance(
+                                    p, (ast.FunctionDef,
+                                        ast.AsyncFunctionDef)):
+                                fn = p
+                            if isinstance(p, ast.ClassDef):
+                                cls = p
+                                break
+                            p = getattr(p, "_parent", None)
+                        if cls is None or cls.name not in family \
+                                or not isinstance(n.ctx, ast.Load):
+                            ok = False
+                            break
+                        if fn is None:
+                            plan.append((n, None, cls))
+                        else:
+                            decos = {getattr(d, "id", getattr(d, "attr", ""))
+                                     for d in fn.decorator_list}
+                            if "staticmethod" in decos or not fn.args.args \
+                                    or getattr(fn, "_parent", None) \
+                                    is not cls:
+                                ok = False
+                                break
+                            plan.append((n, fn.args.args[0].arg, cls))
+                    if not ok or not uses:
+                        continue
+                    # move the assignment into the class, first in its body
+                    mod.tree.body.remove(assigns[0])
+                    new = ast.Assign(
+                        targets=[ast.Name(id=fld, ctx=ast.Store())],
+                        value=assigns[0].value, lineno=assigns[0].lineno)
+                    ast.copy_location(new, assigns[0])
+                    ast.fix_missing_locations(new)
+                    pos = 0
+                    if cnode.body and isinstance(cnode.body[0], ast.Expr) \
+                            and isinstance(getattr(cnode.body[0], "value",
+                                                   None), ast.Constant):
+                        pos = 1
+                    cnode.body.insert(pos, new)
+                    new._parent = cnode
+                    for n, recv, cls in plan:
+                        par = n._parent
+                        if recv is not None:
+                            repl = ast.Attribute(
+                                value=ast.Name(id=recv, ctx=ast.Load()),
+                                attr=fld, ctx=ast.Load())
+                        elif cls is cnode:
+                            repl = ast.Name(id=fld, ctx=ast.Load())
+                        else:
+                            repl = ast.Attribute(
+                                value=ast.Name(id=cname, ctx=ast.Load()),
+                                attr=fld, ctx=ast.Load())
+                        ast.copy_location(repl, n)
+                        ast.fix_missing_locations(repl)
+                        repl._parent = par
+                        for child in ast.iter_child_nodes(repl):
+                            child._parent = repl
+                        for fname, val in ast.iter_fields(par):
+                            if val is n:
+                                setattr(par, fname, repl)
+                            elif isinstance(val, list):
+                                for i, x in enumerate(val):
+                                    if x is n:
+                                        val[i] = repl
+                    self.renamed["%s.%s" % (modname, g)] = \
+                        "%s.%s (class constant)" % (cname, fld)
 
     # ------------------------------------------------------- alpha-renaming
     def _alpha_normalise(self):
